@@ -165,6 +165,12 @@ func isZeroPV(info *types.Info, f *ScopeFunc, e ast.Expr) bool {
 // underNilGuard: the return sits in `case nil:` of a type switch, or inside an
 // if whose condition tests `== nil` / `.IsNil()`.
 func underNilGuard(info *types.Info, f *ScopeFunc, n ast.Node) (string, bool) {
+	// reached only past `if v != nil { …; return }`: v is nil here
+	if facts := FactsAt(info, f.Body, n); len(facts.IsNil) > 0 {
+		for e := range facts.IsNil {
+			return "reached only where " + e + " == nil", true
+		}
+	}
 	path := core.PathTo(f.Body, n)
 	for i := len(path) - 1; i > 0; i-- {
 		switch p := path[i-1].(type) {
@@ -187,8 +193,16 @@ func underNilGuard(info *types.Info, f *ScopeFunc, n ast.Node) (string, bool) {
 			}
 			// a flag computed by a helper that sets it only under its own nil guard
 			if id, ok := core.Unparen(p.Cond).(*ast.Ident); ok {
-				if why, ok := nilFlagFromHelper(info, f, id); ok {
+				if why, ok := nilFlagFromHelper(info, f, id, false); ok {
 					return why, true
+				}
+			}
+			// the same with the flag the other way round: `if !isSet { return zero, nil }`
+			if u, ok := core.Unparen(p.Cond).(*ast.UnaryExpr); ok && u.Op == token.NOT {
+				if id, ok := core.Unparen(u.X).(*ast.Ident); ok {
+					if why, ok := nilFlagFromHelper(info, f, id, true); ok {
+						return why, true
+					}
 				}
 			}
 		}
@@ -199,7 +213,7 @@ func underNilGuard(info *types.Info, f *ScopeFunc, n ast.Node) (string, bool) {
 // nilFlagFromHelper: `v, isNil, err := helper(x)` where helper returns true in
 // that position only from return statements that are themselves under a
 // nil-input guard.
-func nilFlagFromHelper(info *types.Info, f *ScopeFunc, id *ast.Ident) (string, bool) {
+func nilFlagFromHelper(info *types.Info, f *ScopeFunc, id *ast.Ident, negated bool) (string, bool) {
 	obj := info.Uses[id]
 	var call *ast.CallExpr
 	pos, defs := -1, 0
@@ -245,7 +259,18 @@ func nilFlagFromHelper(info *types.Info, f *ScopeFunc, id *ast.Ident) (string, b
 			bad = true
 			return true
 		}
-		if tv.Value.String() == "true" {
+		want := "true"
+		if negated {
+			want = "false"
+		}
+		if tv.Value.String() == want {
+			// a return that reports rejection through a final `ok bool` = false is the error
+			// path, which the caller leaves before it looks at this flag
+			if negated && pos != len(ret.Results)-1 {
+				if ltv, has := info.Types[ret.Results[len(ret.Results)-1]]; has && ltv.Value != nil && ltv.Value.String() == "false" {
+					return true
+				}
+			}
 			trues++
 			if _, ok := underNilGuard(info, hf, ret); ok {
 				guarded++
